@@ -220,6 +220,24 @@ def integralise(rng, a):
     return [r(v) if i in chosen else v for i, v in enumerate(a)], chosen
 
 
+SMALL_DTYPES = [np.uint8, np.int8, np.int16, np.uint16, np.int32, np.uint32, np.float32, np.float16]
+
+
+def small_dtype(v, pick):
+    """a narrow numpy dtype that holds the integral value(s) v exactly (chosen by the index `pick`), or None"""
+    flat = np.asarray(v, float).reshape(-1)
+    k = pick if isinstance(pick, int) else 0
+    for j in range(len(SMALL_DTYPES)):
+        dt = SMALL_DTYPES[(k + j) % len(SMALL_DTYPES)]
+        try:
+            with np.errstate(all='ignore'):
+                if np.array_equal(np.asarray(flat, dtype=float).astype(dt).astype(float), flat) and (dt not in (np.uint8, np.uint16, np.uint32) or flat.min() >= 0):
+                    return dt
+        except Exception:
+            pass
+    return None
+
+
 def spell(a, chosen, variant, layout_mask=None):
     """argument objects for the values a in one of the spellings 0 (reference: floats, C-ordered float64 arrays), 1 (ints / integer arrays), 2 (lists, numpy scalars),
     3 (tuples), 4 (Fortran-ordered arrays), 5 (transposed / negative-stride views)"""
@@ -234,7 +252,11 @@ def spell(a, chosen, variant, layout_mask=None):
             out.append(build1(v))
         elif isinstance(v, float):
             integral = i in chosen
-            out.append([float(v), int(v) if integral else float(v), (np.int64(int(v)) if integral else np.float64(v)), np.float64(v), float(v), float(v)][variant])
+            if variant == 6:
+                dt = small_dtype(v, layout_mask) if integral else None
+                out.append(dt(v) if dt is not None else float(v))
+            else:
+                out.append([float(v), int(v) if integral else float(v), (np.int64(int(v)) if integral else np.float64(v)), np.float64(v), float(v), float(v)][variant])
         else:
             integral = i in chosen
             if variant == 0:
@@ -245,10 +267,12 @@ def spell(a, chosen, variant, layout_mask=None):
                 out.append(conv(v, int) if integral else conv(v, float))
             elif variant == 3:
                 out.append(tup(conv(v, float)))
+            elif variant == 6:
+                out.append(np.array(v, dtype=small_dtype(v, layout_mask)) if integral and small_dtype(v, layout_mask) is not None else np.array(v, dtype=float))
             else:
                 # memory layouts, chosen per argument (variant 4: Fortran order for the arguments picked by the mask, variant 5: transposed / negative-stride views)
                 w = np.array(v, dtype=float)
-                if layout_mask is not None and not layout_mask[i % len(layout_mask)]:
+                if layout_mask is not None and not layout_mask[i]:
                     out.append(w)
                 elif variant == 4:
                     out.append(np.asfortranarray(w))
@@ -258,7 +282,8 @@ def spell(a, chosen, variant, layout_mask=None):
 
 
 SPELLINGS = {1: 'integral values as python ints / integer arrays', 2: 'arrays as nested lists, scalars as numpy scalars', 3: 'arrays as tuples, scalars as numpy float64',
-             4: 'arrays in Fortran (column-major) memory order', 5: 'arrays as transposed / negative-stride views'}
+             4: 'arrays in Fortran (column-major) memory order', 5: 'arrays as transposed / negative-stride views',
+             6: 'integral values in a narrow numpy dtype (uint8 / int8 / int16 / uint16 / int32 / uint32 / float32 / float16)'}
 
 
 DELTAS = [1e-12, 1e-10, 1e-9, 1e-8, 1e-7, 1e-6, 3e-6, 8e-6, 3e-5, 1e-3, 0.05, 0.5]
@@ -287,11 +312,18 @@ def run(ctx, entries):
                 a2, chosen = integralise(rng, a) if sub else (list(a), [])
                 pristine(mods)
                 ref = call(entry, spell(a2, chosen, 0))
-                for variant in (1, 2, 3, 4, 5):
-                      if variant == 1 and not chosen:
+                arr_pos = [i for i, v in enumerate(a2) if isinstance(v, (list, tuple))]
+                plans = [(1, None), (2, None), (3, None)]      # variant 6 (narrow numpy dtypes) is not used: see DESIGN.md section 8
+                for variant in (4, 5):
+                    # memory layouts: every non-empty subset of the array arguments (at most three of them), the others stay C-ordered
+                    pos = arr_pos[:3]
+                    for bits in range(1, 2 ** len(pos)):
+                        sel = set(p_ for j, p_ in enumerate(pos) if bits >> j & 1)
+                        plans.append((variant, [(i in sel) for i in range(max(len(a2), 1))]))
+                for variant, mask in plans:
+                      if variant in (1, 6) and not chosen:
                           continue
                       pristine(mods)
-                      mask = None if variant < 4 or rng.random() < 0.34 else [rng.random() < 0.5 for _ in range(5)]
                       got = call(entry, spell(a2, chosen, variant, mask))
                       ctx.count(('hist', entry['mod'], entry['fn'], trial, variant), hist='history:%s.%s:spelling' % (entry['mod'].split('.')[-1], entry['fn']))
                       if got[0] == 'exc' and (ref[0] == 'ok' or got[1] != ref[1]):      # the spelling is not accepted (or fails earlier for its own reason): recorded, not reported
@@ -302,7 +334,7 @@ def run(ctx, entries):
                       if d and key not in seen:
                           seen.add(key)
                           what = ('%s.%s depends on how its arguments are spelled (%s): %r gives %s, the same values as floats / float64 arrays give %s (%s)'
-                                  % (entry['mod'], entry['fn'], SPELLINGS[variant] + ('' if mask is None else ' (arguments %s only)' % [i for i in range(len(a2)) if mask[i % 5]]), spell(a2, chosen, variant, mask), show(got), show(ref), d))
+                                  % (entry['mod'], entry['fn'], SPELLINGS[variant] + ('' if not isinstance(mask, list) else ' (arguments %s only)' % [i for i in range(len(a2)) if mask[i]]), spell(a2, chosen, variant, mask), show(got), show(ref), d))
                           fails.append({'class': 'history:spelling', 'fn': entry['mod'] + '.' + entry['fn'], 'mode': 'spelling', 'a': plain(a2), 'integral_args': chosen, 'variant': SPELLINGS[variant],
                                         'got': show(got, 400), 'fresh': show(ref, 400), 'what': what, 'replay': what})
                 continue
@@ -347,4 +379,32 @@ def run(ctx, entries):
                               'got': show(got, 400), 'fresh': show(ref, 400), 'what': what, 'replay': what})
     pristine(set(RELOAD_ORDER))
     xfab.CHECKS.activated = saved_checks
+    return fails
+
+
+INT_DTYPES = [np.int8, np.uint8, np.int16, np.uint16, np.int32, np.uint32, np.int64]
+
+
+def narrow_int_replays(ctx, label, f, values, tol=1e-9):
+    """deterministic: f(dt(v)) for every narrow numpy integer type dt that holds the integer v must equal f(float(v)).  Used only for functions whose expression
+    promotes its argument to float64 (w * pi / 360, eta * pi / 180, -b * s * s): there an integer-typed argument is just another spelling of the same number.
+    (Functions that hand their argument straight to numpy.cos / numpy.radians compute in float16 / float32 for 8- / 16-bit integers on the unchanged tree as
+    well; those are outside this replay, see DESIGN.md section 8.)"""
+    fails = []
+    for v in values:
+        ref = ('ok', f(float(v)))
+        for dt in INT_DTYPES:
+            info = np.iinfo(dt)
+            if not (info.min <= v <= info.max):
+                continue
+            ctx.count(('narrow', label, v, dt.__name__), hist='search:%s:narrow integer dtypes' % label)
+            try:
+                got = ('ok', f(dt(v)))
+            except Exception as e:
+                got = ('exc', type(e).__name__)
+            d = differs(got, ref, tol)
+            if d:
+                what = '%s with the argument numpy.%s(%d) gives %s, with %r it gives %s (%s)' % (label, dt.__name__, v, show(got), float(v), show(ref), d)
+                fails.append({'class': 'spelling:narrow-int', 'fn': label, 'value': v, 'dtype': dt.__name__, 'what': what, 'replay': what})
+                return fails
     return fails
